@@ -79,6 +79,8 @@ static char a67txt[MAXK][24];
 static struct alph_s alph[] = {
 	{"k2day", 2, {"20000101", "20000101T000000"}},
 	{"k2sec", 2, {"20000101T100000.999", "20000101T100001"}},
+	/* a whole second and a fraction of the same second: the whole second comes first */
+	{"k3sec", 3, {"20000101T100000.999", "20000101T100001", "20000101T100001.500"}},
 	{"k2prev", 2, {"19991231T235959", "20000101"}},
 	{"k3", 3, {"20000101", "20000101T000000", "20000101T123015.250"}},
 	{"k3b", 3, {"19991231T235959", "20000101", "20000101T000000.000"}},
@@ -763,7 +765,7 @@ check_cmp(void)
 			}
 		}
 	}
-	vd_sample("lt_p/le_p on every ordered pair of every alphabet (k2day, k2sec, k2prev, k3, k3b, k5, k67)");
+	vd_sample("lt_p/le_p on every ordered pair of every alphabet (k2day, k2sec, k3sec, k2prev, k3, k3b, k5, k67)");
 }
 
 static void
